@@ -17,7 +17,8 @@ namespace PersimVerif.SrcNp
     the iteration bound of a `while` loop (the translator's table gives it) was exhausted -- not a Python behaviour; every
     obligation `… = .ok …` proves that it does not occur, i.e. that the loop terminates within the bound.  `draws`: the list of
     recorded `np.random.choice` draws that a definition receives as a parameter is used up -- not a Python behaviour either; the
-    obligations assume at least as many draws as permutations. -/
+    obligations assume at least as many draws as permutations.  `infinite`: a running minimum that is still `np.inf` reached a
+    `return` whose value the translation needs as a finite number (Python would return `inf`; flagged, not modelled). -/
 inductive PyErr where
   | indexError
   | valueError
@@ -25,6 +26,7 @@ inductive PyErr where
   | negativeIndex
   | bound
   | draws
+  | infinite
   deriving DecidableEq, Repr
 
 /-- `l[k]` for a list / 1-D array and an index `k ≥ 0`: `IndexError` beyond the end -/
